@@ -362,14 +362,14 @@ def _fn_signature_end(toks, item):
     return item.body_open
 
 
-def splice_fn(repo, file, item_path, sections, trait=None, nth=0, opts=(), canary=False, rules=None, dropped=None, lift=False, auto_lines=None):
+def splice_fn(repo, file, item_path, sections, trait=None, nth=0, opts=(), canary=False, rules=None, dropped=None, lift=False, auto_lines=None, nth_explicit=False):
     path = os.path.join(repo, file)
     if not os.path.exists(path):
         raise AnchorLost('file missing: %s' % file)
     src = open(path).read()
     try:
         toks = rs.tokenize(src)
-        item, blk = rs.find_item(toks, item_path, trait, nth)
+        item, blk = rs.find_item(toks, item_path, trait, nth, nth_explicit)
     except rs.ScanError as e:
         raise AnchorLost(str(e))
     if item.kind != 'fn':
@@ -380,6 +380,18 @@ def splice_fn(repo, file, item_path, sections, trait=None, nth=0, opts=(), canar
     _apply_rules(ed, toks, item.start_idx, item.end_idx, repo, opts, rules, dropped, file)
     body_open = _fn_signature_end(toks, item)
     body_close = item.end_idx
+    if 'sig' in sections:
+        # X9 (one instance of a generic function): the signature — from `fn` to the body — is replaced by the text of `//@sig`, the
+        # function's type parameters being instantiated at opaque environment types that offer exactly what the bounds offer
+        # (`T: AsRef<str>` -> a type with `as_ref`).  `//@sig_was` holds the signature the unit was written for: any other text loses
+        # the anchor.  What is proved is proved for that instance; the body is the real text.
+        want_s = [t.text for t in rs.tokenize(sections.get('sig_was', '')) if t.kind not in ('ws', 'comment', 'doc')]
+        sig_ci = [k for k in range(item.kw_idx, body_open) if toks[k].kind not in ('ws', 'comment', 'doc')]
+        if not want_s or [toks[k].text for k in sig_ci] != want_s:
+            raise AnchorLost('%s: the signature is `%s`, the unit was written for `%s`' % (item_path, ' '.join(toks[k].text for k in sig_ci), ' '.join(want_s)))
+        ed.replace(sig_ci[0], sig_ci[-1], sections['sig'].strip() + ' ')
+        rules['X9-instance'] = rules.get('X9-instance', 0) + 1
+        dropped.append('%s:%d generic function verified at ONE instance of its type parameters (X9): %s' % (file, toks[item.kw_idx].line, ' '.join(sections['sig'].split())))
     lift_info = None
     if lift:
         # X2g (lambda lifting): the braced body of the inline closure passed at `//@lift_anchor` (`RECV.method`) is emitted as a
@@ -941,7 +953,7 @@ def splice_fn(repo, file, item_path, sections, trait=None, nth=0, opts=(), canar
                 file, toks[a_idx].line, ' '.join(sections[rk].split())[:300]))
     for key, text in sections.items():
         if key.startswith('replace ') or key.startswith('replace_all ') or key.startswith('with ') or key.startswith('desugar ') or key.startswith('any_') \
-                or key.startswith('lift_'):
+                or key.startswith('lift_') or key in ('sig', 'sig_was'):
             continue
         if lift_info is not None and key in ('spec', 'attr') or (lift_info is not None and key.startswith('ret ')):
             continue
@@ -1252,12 +1264,12 @@ def build(repo, template_path, canary=False, auto=False) -> SpliceResult:
             if auto:
                 # second attempt: first find the closures no rule rewrote, then let X2d-auto try them
                 _l, _m, info0 = splice_fn(repo, kv['file'], kv['item'], sections, kv.get('trait'), int(kv.get('nth', 0)),
-                                          opts, is_canary_target, {}, [], lift=('lift' in kv))
+                                          opts, is_canary_target, {}, [], lift=('lift' in kv), nth_explicit=('nth' in kv))
                 auto_lines = set(info0.get('closures_left') or [])
             else:
                 auto_lines = None
             lines, lm, info = splice_fn(repo, kv['file'], kv['item'], sections, kv.get('trait'), int(kv.get('nth', 0)),
-                                        opts, is_canary_target, rules, dropped, lift=('lift' in kv), auto_lines=auto_lines)
+                                        opts, is_canary_target, rules, dropped, lift=('lift' in kv), auto_lines=auto_lines, nth_explicit=('nth' in kv))
             info['role'] = kv.get('role', 'helper')
             info['closures_ok'] = int(kv.get('closures_ok', 0))
             if 'loops' in kv and 'lift' not in kv and info['loops'] != int(kv['loops']):
